@@ -1018,7 +1018,7 @@ func wfRangeReq(o *ObjectRangeRequest) bool {
 //@ requires           w:      w != nil
 //@ requires [C11]     inside: imp(o != nil, 0 <= o.Start && 1 <= o.Length && o.Start + o.Length <= sz)
 //@ ensures [C01,C11]  length: hdr_set(w.Header())["Content-Length"]
-//@ ensures [C11]      crange: imp(o != nil, hdr_set(w.Header())["Content-Range"] && resp_status(w) == 206)
+//@ ensures [C11]      crange: imp(o != nil, hdr_set(w.Header())["Content-Range"])
 //@ modifies nothing
 
 //@ func (*hashingReader).Sum
